@@ -162,7 +162,8 @@ def gen_cases(ctx: Ctx) -> List[Dict[str, Any]]:
     for i in range(n_real):
         cad = dict(data=1, coordinates=2, velocities=1, forces=3, xyz=1, print=0, ckpt=3)
         eng = ["basic", "xl", "langevin", "ksa", "xl"][i]
-        sc = sc_(cad, 7, engine=eng, stub=False, mols=("h2",), k=[4, 5, 4, 4, 9][i])
+        # (KSA on an all-hydrogen molecule raises inside fock._two_center - "also seen" in DESIGN 10.3 - so KSA runs use water)
+        sc = sc_(cad, 7, engine=eng, stub=False, mols=(("h2o",) if eng == "ksa" else ("h2",)), k=[4, 5, 4, 4, 9][i])
         if eng == "langevin":
             sc["damp"] = 20.0
         cases.append({"sc": sc, "crashes": [dict(step=5, upto=int(rng.integers(0, 7)), hard=bool(i % 2))]})
